@@ -16,7 +16,7 @@ def run(ctx):
     S = []
     def add(name, wrapper, defines, entry, args, tl, flavour, note='', **kw):
         S.append(dict(name=name, wrapper=wrapper, defines=defines, entry=entry, args=args, time_limit=tl, flavour=flavour, note=note, **kw))
-    add('seq.ubsan.d1.h5.n3', 'w_tree.cpp', D(1, 5, 3, 1), 'h_c01', [-3, -1, 1, -2, 0, 0], 200, 'ubsan', 'build + execute + destroy')
+    add('seq.ubsan.d1.h5.n3', 'w_tree.cpp', D(1, 5, 3, 1), 'h_c01', [-2, -1, 1, -1, 0, 0], 200, 'ubsan', 'build + execute + destroy')
     add('seq.ndebug.d2.h3.n3', 'w_tree.cpp', D(2, 3, 3, 1), 'h_c01', [-3, -1, 0, -1, 0, 0], 240, 'plain', 'as shipped (NDEBUG): bounds / lifetime / leak only')
     add('seq.ubsan.d3.h3.n2', 'w_tree.cpp', D(3, 3, 2, 1), 'h_c01', [2, -1, 1, -1, 0, 0], 240, 'ubsan')
     add('rebuild.ubsan.d1.h4.n3', 'w_tree.cpp', D(1, 4, 3, 1), 'h_c13', [-3, -1, 1, -1, 1, 0], 240, 'ubsan', 'move + rebuild + execute')
